@@ -95,6 +95,11 @@ func C03(c *core.Ctx) {
 		if mb.cfg.MinSizedInts {
 			budget = 4096
 		}
+		// width hints (format int32/int64/double): a narrower Go number type would still reject every wrong JSON type, so the
+		// exact-width demand of the oracle table belongs to C02 (no valid value lost) and C08 (enum carrier), not here
+		if strings.Contains(mb.name, "integer:int32") || strings.Contains(mb.name, "integer:int64") || strings.Contains(mb.name, "number:double") {
+			continue
+		}
 		runMember(c, mb, rules, budget, func(w *fam.World, fm *fam.FileModel) []fam.Issue {
 			var keep []fam.Issue
 			for _, is := range checkRoot(w, fm) {
